@@ -240,6 +240,19 @@ fn deep_visit(by: &[Vec<E>], f: &mut dyn FnMut(usize, &E) -> bool) {
 }
 fn deep_tables() -> Vec<Vec<E>> { let mut by: Vec<Vec<E>> = vec![vec![]]; for n in 1..=DEEP_TABLE { let v = deep_of_size(n, &by); by.push(v); } by }
 
+// ---- third stage for C15: wide, not left-factored choices - many call stacks pending at one position (the preallocated
+// capacity of the call-stack vector is 20): stmt = { create ~ "b" | .. (S times) | "b" | .. (K times) | other }, create = { "a" }, other = { "x" | "y" }
+fn wide(shared: usize, keywords: usize) -> E {
+    let mut alts: Vec<E> = vec![];
+    for _ in 0..shared { alts.push(E::Seq(Box::new(E::Rule(1, Box::new(E::Str("a")))), Box::new(E::Str("b")))); }
+    for _ in 0..keywords { alts.push(E::Str("b")); }
+    alts.push(E::Rule(2, Box::new(E::Alt(Box::new(E::Str("x")), Box::new(E::Str("y"))))));
+    let mut e = alts.pop().unwrap();
+    while let Some(a) = alts.pop() { e = E::Alt(Box::new(a), Box::new(e)); }
+    E::Rule(0, Box::new(e))
+}
+const WIDE_INPUTS: [&str; 6] = ["", "z", "a", "ab", "x", "az"];
+
 fn nonprogress(e: &E) -> bool { // repeat over something that can succeed without consuming would not terminate
     match e { E::Rep(a) => nullable(a) || nonprogress(a), E::Seq(a, b) | E::Alt(a, b) => nonprogress(a) || nonprogress(b),
         E::Opt(a) | E::Pos(a) | E::Neg(a) | E::Rule(_, a) | E::RuleA(_, a) | E::RuleC(_, a) | E::Atomic(a) | E::Compound(a) | E::NonAtomic(a) | E::Push(a) | E::Restore(a) => nonprogress(a), _ => false }
@@ -261,6 +274,11 @@ fn main() {
         let j = &args[i + 1];
         let get = |key: &str| { let k = format!("\"{}\":\"", key); let a = j.find(&k).unwrap() + k.len(); let b = j[a..].find('"').unwrap() + a; j[a..b].to_string() };
         let idx: usize = get("program_index").parse().unwrap(); let input = get("input");
+        if j.contains("\"stage\":\"wide\"") {
+            let prog = wide(get("shared").parse().unwrap(), get("keywords").parse().unwrap());
+            match check(&prog, &input, "all") { Ok(()) => println!("wide choice (shared {}, keywords {}) on {:?}: agrees with the direct reading on this tree", get("shared"), get("keywords"), input), Err(e) => { println!("FAILS: wide choice (shared {}, keywords {}) on {:?}: {}", get("shared"), get("keywords"), input, e); std::process::exit(1) } }
+            return;
+        }
         if j.contains("\"stage\":\"deep\"") {
             let dby = deep_tables(); let mut prog = None;
             deep_visit(&dby, &mut |i, e| { if i == idx { prog = Some(e.clone()); true } else { false } });
@@ -317,6 +335,13 @@ fn main() {
     if found { return; }
     let mut deep_note = String::new();
     if mode == "C08" || mode == "C15" {
+        if mode == "C15" {
+            for sh in 0..=36usize { for kw in 0..=26usize { let e = wide(sh, kw); for input in WIDE_INPUTS {
+                if let Err(w) = check(&e, input, &mode) {
+                    println!("WITNESS {{\"program_index\":\"0\",\"input\":\"{}\",\"stage\":\"wide\",\"shared\":\"{}\",\"keywords\":\"{}\",\"program\":\"stmt = create ~ b (x{}) | b (x{}) | other\",\"what\":\"{}\"}}", input, sh, kw, sh, kw, w.replace('"', "'"));
+                    return;
+                } } } }
+        }
         let dby = deep_tables();
         let dbudget = std::env::var("VX_STATE_DEEP_S").ok().and_then(|x| x.parse().ok()).unwrap_or(240u64);
         let t1 = std::time::Instant::now(); let mut dn = 0usize; let mut last = 0usize;
@@ -333,7 +358,7 @@ fn main() {
             false
         });
         if found { return; }
-        deep_note = format!("; second stage: {} program/input pairs over {{a, b, the empty literal, ANY, two rules, !, ?, ~, |}} up to 9 nodes (index {} within {} s)", dn, last, dbudget);
+        deep_note = format!("; second stage: {} program/input pairs over {{a, b, the empty literal, ANY, two rules, !, ?, ~, |}} up to 9 nodes (index {} within {} s){}", dn, last, dbudget, if mode == "C15" { "; third stage: wide choices with 0..=36 shared-prefix and 0..=26 keyword alternatives x 6 inputs" } else { "" });
     }
     println!("NO-WITNESS {} program/input pairs (all programs up to 5 nodes, size 6 up to index {} within {} s) agree with the direct reading{}", n, idx, budget, deep_note);
 }
